@@ -1316,7 +1316,14 @@ impl<'ast, 'res> Resolver<'ast, 'res> {
         match stmt {
             Stmt::Return { expr, .. } => {
                 if let Some(expr_ref) = expr {
-                    if let Some(typ) = self.infer_expr_type(expr_ref) {
+                    // Signatures are inferred while the enclosing block is predeclared,
+                    // before the function's parameters and locals are in scope. A name in
+                    // the returned expression would resolve against the *outer* scopes, so
+                    // only expressions whose type does not depend on a variable or user
+                    // function keep a precise type.
+                    if !Self::expr_is_closed(expr_ref) {
+                        return_types.push(ValueType::Dynamic);
+                    } else if let Some(typ) = self.infer_expr_type(expr_ref) {
                         return_types.push(typ);
                     } else {
                         return_types.push(ValueType::Dynamic);
@@ -1338,6 +1345,29 @@ impl<'ast, 'res> Resolver<'ast, 'res> {
                 self.collect_return_types(block, return_types);
             }
             _ => {}
+        }
+    }
+
+    /// Returns true when the *type* of the expression can be inferred without resolving any
+    /// variable or user function name (array elements and call arguments do not matter).
+    fn expr_is_closed(expr: ExprRef<'ast>) -> bool {
+        match expr {
+            // A literal has its type whatever its placeholders or elements refer to, and
+            // indexing is dynamically typed anyway.
+            Expr::Number(..)
+            | Expr::Bool(..)
+            | Expr::Null(..)
+            | Expr::String { .. }
+            | Expr::Array { .. }
+            | Expr::Index { .. } => true,
+            Expr::Var(..) => false,
+            Expr::Binary { lhs, rhs, .. } => Self::expr_is_closed(lhs) && Self::expr_is_closed(rhs),
+            Expr::Unary { expr, .. } => Self::expr_is_closed(expr),
+            Expr::Member { object, .. } => Self::expr_is_closed(object),
+            Expr::Call { callee, .. } => match callee {
+                Expr::Var(name, ..) => GlobalBuiltin::from_name(name).is_some(),
+                other => Self::expr_is_closed(other),
+            },
         }
     }
 
